@@ -35,7 +35,7 @@ def _resolve(name: str, func) -> ast.AST | None:
 
 def seq_direction(e: ast.AST, func, depth=0) -> str | None:
     """'asc' / 'desc' iteration order over the operator list, else None."""
-    if depth > 5:
+    if depth > 12:
         return None
     if isinstance(e, ast.Name):
         r = _resolve(e.id, func)
@@ -70,17 +70,32 @@ def seq_direction(e: ast.AST, func, depth=0) -> str | None:
     return None
 
 
-def guard_kind(loop: ast.For, power_name: str) -> str | None:
+def loop_names(loop: ast.For):
+    """(index name, power name, number of leading statements that only bind the power) for the operator loops
+        for i, power in enumerate(powers): ...            ->  (i, power, 0)
+        for i in <index range>: power = powers[i]; ...    ->  (i, power, 1)
+    else None."""
+    if isinstance(loop.target, ast.Tuple) and len(loop.target.elts) == 2 and all(isinstance(e, ast.Name) for e in loop.target.elts):
+        return loop.target.elts[0].id, loop.target.elts[1].id, 0
+    if isinstance(loop.target, ast.Name) and loop.body and isinstance(loop.body[0], ast.Assign) and len(loop.body[0].targets) == 1 \
+            and isinstance(loop.body[0].targets[0], ast.Name) and isinstance(loop.body[0].value, ast.Subscript) \
+            and norm(loop.body[0].value.slice) == loop.target.id:
+        return loop.target.id, loop.body[0].targets[0].id, 1
+    return None
+
+
+def guard_kind(loop: ast.For, power_name: str, skip: int = 0) -> str | None:
     """'annihilation' if the loop body runs only for power > 0, 'creation' if only for power < 0.
     Accepted guards: `if <skip test>: continue` first in the body, or the whole body under `if <run test>:`."""
-    if not loop.body or not isinstance(loop.body[0], ast.If):
+    body = loop.body[skip:]
+    if not body or not isinstance(body[0], ast.If):
         return None
-    g = loop.body[0]
+    g = body[0]
     if g.orelse:
         return None
     if g.body and isinstance(g.body[0], ast.Continue):
         negate = True
-    elif len(loop.body) == 1:
+    elif len(body) == 1:
         negate = False
     else:
         return None
@@ -96,14 +111,15 @@ def guard_kind(loop: ast.For, power_name: str) -> str | None:
     return None
 
 
-def guarded_body(loop: ast.For) -> list:
+def guarded_body(loop: ast.For, skip: int = 0) -> list:
     """The statements that run for the selected powers (see guard_kind)."""
-    g = loop.body[0]
+    body = loop.body[skip:]
+    g = body[0]
     if isinstance(g, ast.If) and g.body and isinstance(g.body[0], ast.Continue):
-        return loop.body[1:]
-    if isinstance(g, ast.If) and len(loop.body) == 1:
+        return body[1:]
+    if isinstance(g, ast.If) and len(body) == 1:
         return g.body
-    return loop.body
+    return body
 
 
 def lin(e: ast.AST, syms=("to_pair", "op_power", "orig_power", "new_power", "power")):
@@ -215,11 +231,20 @@ def rule_operator_order(rep: Report, repo: Repo):
     phases = []
     for s in outer[0].body:
         if isinstance(s, ast.For):
-            names = [norm(e) for e in s.target.elts] if isinstance(s.target, ast.Tuple) else []
-            if len(names) != 2:
+            ln = loop_names(s)
+            if ln is None:
                 raise AnalysisError(RULE, f"__mul__: loop target `{norm(s.target)}`")
-            kind = guard_kind(s, names[1])
+            names = [ln[0], ln[1]]
+            kind = guard_kind(s, names[1], ln[2])
             d = seq_direction(s.iter, m)
+            if ln[2] and d is not None:
+                # an index loop: the iterable must be a range over all positions of the same power tuple
+                base = s.iter
+                while isinstance(base, ast.Call) and call_name(base) in ("reversed", "list", "tuple") and len(base.args) == 1:
+                    base = base.args[0]
+                if not (isinstance(base, ast.Call) and call_name(base) == "range" and len(base.args) == 1
+                        and norm(base.args[0]) == f"len({norm(s.body[0].value.value)})"):
+                    d = None
             calls = [c for c in ast.walk(s) if isinstance(c, ast.Call) and isinstance(c.func, ast.Attribute) and c.func.attr == "_multiply_op"]
             ok_call = len(calls) == 1 and [norm(a) for a in calls[0].args] == names and norm(calls[0].func.value) == "partial"
             if kind is None or d is None or not ok_call:
@@ -303,7 +328,9 @@ def rule_fermion_crossing(rep: Report, repo: Repo, orders=None):
         _f, orders = term_orders_as_expr(repo)
     f = repo.find(f"{CLS}::_multiply_op", RULE)
     loc = lambda n: repo.loc(MOD, n)
-    blk = [n for n in own_nodes(f) if isinstance(n, ast.If) and norm(n.test) == "isinstance(operator, FermionOp)"]
+    from .resolve import env_at, resolved, rtext, run_block
+    blk = [n for n in own_nodes(f) if isinstance(n, ast.If)
+           and rtext(_flag_value(n.test), env_at(n, f)) == "isinstance(self.operators[op_index], FermionOp)"]
     if len(blk) != 1:
         raise AnalysisError(RULE, "_multiply_op: fermionic sign block not found")
     inner = [s for s in blk[0].body if isinstance(s, ast.If) and any(isinstance(x, ast.Assign) and norm(x.targets[0]) == "preceding_fermions"
@@ -313,7 +340,7 @@ def rule_fermion_crossing(rep: Report, repo: Repo, orders=None):
     br = inner[0]
     def descr(stmts):
         a = [x for x in stmts if isinstance(x, ast.Assign) and norm(x.targets[0]) == "preceding_fermions"]
-        d = _count_descr(a[0].value) if len(a) == 1 else None
+        d = _count_descr(resolved(a[0].value, run_block(stmts[:stmts.index(a[0])]))) if len(a) == 1 else None
         if d is None:
             raise AnalysisError(RULE, f"_multiply_op: counting expression `{norm(a[0].value) if a else ''}` not understood")
         return d, a[0]
@@ -365,6 +392,22 @@ def _paths_boson_branch(f):
     return loop[0], ann, cre
 
 
+def _flag_value(test: ast.AST) -> ast.AST:
+    """A bare local flag with a single boolean-valued assignment in the enclosing function stands for that expression."""
+    if not isinstance(test, ast.Name):
+        return test
+    p = getattr(test, "_parent", None)
+    while p is not None and not isinstance(p, ast.FunctionDef):
+        p = getattr(p, "_parent", None)
+    if p is None:
+        return test
+    vals = [n.value for n in own_nodes(p) if isinstance(n, ast.Assign) and len(n.targets) == 1 and isinstance(n.targets[0], ast.Name)
+            and n.targets[0].id == test.id]
+    if len(vals) == 1 and isinstance(vals[0], (ast.Compare, ast.BoolOp)):
+        return vals[0]
+    return test
+
+
 def _run_coeff(stmts, env_flags, nname, is_boson):
     """Abstractly run statements tracking shifts of the OLD coefficient and of NEW factor families.
     state: old shift (linear form), families: {name: shift}, pending families in named variables."""
@@ -381,7 +424,7 @@ def _run_coeff(stmts, env_flags, nname, is_boson):
         nonlocal old, fam_in_coeff
         for s in stmts:
             if isinstance(s, ast.If):
-                t = norm(s.test)
+                t = norm(_flag_value(s.test))
                 if t in ("op_index < self._n_bosons",):
                     run(s.body if is_boson else s.orelse)
                 elif t in ("new_power > 0",):
@@ -559,25 +602,61 @@ def rule_shift_table(rep: Report, repo: Repo):
             rep.fail(RULE, f"{CLS}._multiply_op [{tag}] applies {got_txt}", f"required {want_txt}   [{law}]", loc(loop))
     # _multiply_expr replacement table
     g = repo.find(f"{CLS}::_multiply_expr", RULE)
-    reps = [n for n in own_nodes(g) if isinstance(n, ast.Assign) and isinstance(n.targets[0], ast.Subscript)
-            and norm(n.targets[0].value) == "replacements"]
+    # the per-term replacement table, normalised to one dict comprehension over (i, power) and evaluated per case
+    from .e7b import _pick_ifexp
+    from .paths import eval_bool
+    from .sem import canon, dict_filled_by_loop
+    term_loops = [n for n in g.body if isinstance(n, ast.For)]
+    if len(term_loops) != 1:
+        raise AnalysisError(RULE, "_multiply_expr: loop over the terms not found")
+    xr = [c for c in ast.walk(term_loops[0]) if isinstance(c, ast.Call) and isinstance(c.func, ast.Attribute) and c.func.attr == "xreplace"
+          and len(c.args) == 1 and isinstance(c.args[0], ast.Name)]
+    if len(xr) != 1:
+        raise AnalysisError(RULE, "_multiply_expr: `expr.xreplace(<replacements>)` not found")
+    from .resolve import env_at as _env_at
+    cs = dict_filled_by_loop(term_loops[0].body, xr[0].args[0].id, env=_env_at(term_loops[0], g), cases=True)
+    if cs is None:
+        raise AnalysisError(RULE, "_multiply_expr: the replacement dictionary is not filled by one loop over (i, power)")
+    ltarget, liter, lkey, lcases = cs
+    if not (isinstance(ltarget, ast.Tuple) and len(ltarget.elts) == 2 and norm(liter) == "enumerate(powers)"):
+        raise AnalysisError(RULE, f"_multiply_expr: replacement loop iterates `{norm(liter)[:50]}`")
+    iv, pv = (norm(e) for e in ltarget.elts)
+    NKEY = f"self._number_operator_placeholders[{iv}]"
     table = {}
-    from .e5 import path_condition
-    for r in reps:
-        conds = [(norm(t), pol) for t, pol in path_condition(r, g)]
-        inf = any((t == "i < self._n_inf_order" and pol) for t, pol in conds)
-        fin = any((t == "i < self._n_inf_order" and not pol) for t, pol in conds)
-        pos = any((t == "power > 0" and pol) or (t == "power < 0" and not pol) for t, pol in conds)
-        neg = any((t == "power < 0" and pol) or (t == "power > 0" and not pol) for t, pol in conds)
-        key = ("boson/ladder" if inf else "fermion/spin" if fin else "?", "annihilation" if pos else "creation" if neg else "?")
-        table[key] = norm(r.value)
-    want = {("boson/ladder", "annihilation"): ("n_i + power", "power + n_i"), ("fermion/spin", "creation"): ("Zero", "0", "sympy.S.Zero"),
+    for inf in (True, False):
+        for sign in (1, -1, 0):
+            def atom(n, inf=inf, sign=sign):
+                t = norm(canon(n))
+                m = {f"{iv} < self._n_inf_order": inf, f"self._n_inf_order <= {iv}": not inf,
+                     f"0 < {pv}": sign > 0, f"{pv} < 0": sign < 0, f"{pv} == 0": sign == 0, f"0 == {pv}": sign == 0,
+                     f"{pv} != 0": sign != 0, f"{pv} <= 0": sign <= 0, f"0 <= {pv}": sign >= 0, pv: sign != 0}
+                return m.get(t)
+            key = ("boson/ladder" if inf else "fermion/spin", {1: "annihilation", -1: "creation", 0: "no"}[sign])
+            hits = []
+            for conds, val in lcases:
+                vals = [eval_bool(c, atom) for c in conds]
+                if None in vals:
+                    raise AnalysisError(RULE, f"_multiply_expr: condition `{norm(conds[vals.index(None)])[:50]}` not understood")
+                if all(vals):
+                    v = _pick_ifexp(val, atom)
+                    if isinstance(v, ast.IfExp):
+                        raise AnalysisError(RULE, f"_multiply_expr: replacement value `{norm(v)[:60]}` depends on an unknown condition")
+                    hits.append(norm(v).replace(NKEY, "n_i"))
+            if len(set(hits)) > 1:
+                raise AnalysisError(RULE, f"_multiply_expr: several replacements for one operator in case {key}: {hits}")
+            if hits:
+                table[key] = hits[0]
+    if norm(lkey) not in (NKEY, "n_i"):
+        raise AnalysisError(RULE, f"_multiply_expr: replaced symbol `{norm(lkey)[:50]}` is not the placeholder of operator {iv}")
+    want = {("boson/ladder", "annihilation"): ("n_i + power", "power + n_i", f"n_i + {pv}"), ("fermion/spin", "creation"): ("Zero", "0", "sympy.S.Zero"),
             ("fermion/spin", "annihilation"): ("One", "1", "sympy.S.One")}
     for k, vals in want.items():
         rep.check(table.get(k) in vals, RULE, f"{CLS}._multiply_expr [{k[0]}, term with {k[1]} operators] N -> {vals[0]}",
                   f"found {table.get(k)!r}", repo.loc(MOD, g))
     rep.check(("boson/ladder", "creation") not in table, RULE,
               f"{CLS}._multiply_expr [boson/ladder, term with creation operators] N unchanged", f"{table.get(('boson/ladder', 'creation'))!r}", repo.loc(MOD, g))
+    rep.check(("boson/ladder", "no") not in table and ("fermion/spin", "no") not in table, RULE,
+              f"{CLS}._multiply_expr operators absent from the term leave N unchanged", "", repo.loc(MOD, g))
     st = [n for n in own_nodes(g) if isinstance(n, ast.Assign) and norm(n.targets[0]) == "new_terms[powers]"]
     rep.check(len(st) == 1 and norm(st[0].value) in ("coeff * expr.xreplace(replacements)",), RULE,
               f"{CLS}._multiply_expr multiplies the coefficient by the shifted expression on the right", norm(st[0].value) if st else "", repo.loc(MOD, g))
@@ -593,10 +672,19 @@ def rule_linear_structure(rep: Report, repo: Repo):
     f = repo.find(f"{CLS}::_eval_adjoint", RULE)
     comp = [n for n in ast.walk(f) if isinstance(n, (ast.GeneratorExp, ast.ListComp)) and "self.args[1]" in norm(n.generators[0].iter)]
     ok = False
-    if not comp:
-        raise AnalysisError(RULE, "_eval_adjoint: comprehension over the terms not found")
-    e = comp[0].elt
-    names = [norm(x) for x in comp[0].generators[0].target.elts] if isinstance(comp[0].generators[0].target, ast.Tuple) else []
+    if comp:
+        e = comp[0].elt
+        names = [norm(x) for x in comp[0].generators[0].target.elts] if isinstance(comp[0].generators[0].target, ast.Tuple) else []
+    else:
+        # the same map written as a loop that appends one entry per term
+        from .sem import list_built_by_loop
+        built = None
+        for acc in {norm(c.func.value) for c in ast.walk(f) if isinstance(c, ast.Call) and isinstance(c.func, ast.Attribute) and c.func.attr == "append"}:
+            built = list_built_by_loop(f.body, acc) or built
+        if built is None or len(built[2]) != 1 or built[2][0][0] or "self.args[1]" not in norm(built[1]):
+            raise AnalysisError(RULE, "_eval_adjoint: map over the terms not found (comprehension or appending loop)")
+        e = built[2][0][1]
+        names = [norm(x) for x in built[0].elts] if isinstance(built[0], ast.Tuple) else []
     if isinstance(e, ast.Tuple) and len(e.elts) == 2 and len(names) == 2:
         p, c = e.elts
         while isinstance(p, ast.Call) and call_name(p) in ("tuple", "list") and len(p.args) == 1:
@@ -632,16 +720,19 @@ def rule_linear_structure(rep: Report, repo: Repo):
             bad_body = True
             continue
         dicts.add(norm(l.body[0].target.value))
-        it = l.iter
-        if not (isinstance(it, ast.Subscript) and norm(it.slice) == "1" and isinstance(it.value, ast.Attribute) and it.value.attr == "args"):
-            raise AnalysisError(RULE, f"__add__: merge loop iterates `{norm(it)[:50]}`")
-        src = it.value.value
-        par = getattr(l, "_parent", None)
-        if isinstance(src, ast.Name) and isinstance(par, ast.For) and isinstance(par.target, ast.Name) and par.target.id == src.id \
-                and isinstance(par.iter, (ast.Tuple, ast.List)):
-            sources += [norm(x) for x in par.iter.elts]
-        else:
-            sources.append(norm(src))
+        its = [l.iter]
+        if isinstance(l.iter, ast.Call) and call_name(l.iter) in ("chain", "itertools.chain") and not l.iter.keywords:
+            its = list(l.iter.args)  # one sweep over the concatenation of the operands' terms
+        for it in its:
+            if not (isinstance(it, ast.Subscript) and norm(it.slice) == "1" and isinstance(it.value, ast.Attribute) and it.value.attr == "args"):
+                raise AnalysisError(RULE, f"__add__: merge loop iterates `{norm(it)[:50]}`")
+            src = it.value.value
+            par = getattr(l, "_parent", None)
+            if isinstance(src, ast.Name) and isinstance(par, ast.For) and isinstance(par.target, ast.Name) and par.target.id == src.id \
+                    and isinstance(par.iter, (ast.Tuple, ast.List)):
+                sources += [norm(x) for x in par.iter.elts]
+            else:
+                sources.append(norm(src))
     if not sources:
         raise AnalysisError(RULE, "__add__: merge loops not found")
     ok = not bad_body and sorted(sources) == operands and len(dicts) == 1
@@ -651,7 +742,16 @@ def rule_linear_structure(rep: Report, repo: Repo):
     rep.check(len(comb) == 1, RULE, f"{CLS}.__add__ brings both operands to a common operator list first", "", loc(f))
     m = repo.find(f"{CLS}::__mul__", RULE)
     comb = [n for n in own_nodes(m) if isinstance(n, ast.Assign) and norm(n.value) == "self._combine_operators(other)"]
-    acc = [n for n in own_nodes(m) if isinstance(n, ast.Assign) and norm(n.targets[0]) == "result" and "result +" in norm(n.value)]
+    # accumulation `R = R + X` / `R += X` (NumberOrderedForm defines no __iadd__: both build a new object) inside the loop over
+    # the right operand's terms, with R the returned name
+    rets = [n for n in own_nodes(m) if isinstance(n, ast.Return) and isinstance(n.value, ast.Name)]
+    rname = rets[-1].value.id if rets else None
+    acc = [n for n in own_nodes(m) if (isinstance(n, ast.Assign) and norm(n.targets[0]) == rname and isinstance(n.value, ast.BinOp)
+                                      and isinstance(n.value.op, ast.Add) and norm(n.value.left) == rname)
+           or (isinstance(n, ast.AugAssign) and isinstance(n.op, ast.Add) and norm(n.target) == rname)]
+    acc = [n for n in acc if isinstance(getattr(n, "_parent", None), ast.For)]
+    if rname is None:
+        raise AnalysisError(RULE, "__mul__: returned accumulator not found")
     rep.check(len(comb) == 1 and len(acc) == 1, RULE, f"{CLS}.__mul__ distributes over the right operand's terms on a common operator list", "", loc(m))
     # fermion / spin coefficient rules of _multiply_op
     f = repo.find(f"{CLS}::_multiply_op", RULE)
